@@ -14,22 +14,23 @@ structure Frame (s s' : State) : Prop where
   cur : s'.cur = s.cur
   next : s'.next = s.next
   socks : s'.socks = s.socks
+  aevents : s'.aevents = s.aevents
 
-theorem Frame.rfl' (s : State) : Frame s s := ⟨rfl, rfl, rfl, rfl, rfl⟩
+theorem Frame.rfl' (s : State) : Frame s s := ⟨rfl, rfl, rfl, rfl, rfl, rfl⟩
 
 theorem Frame.trans {a b c : State} (h1 : Frame a b) (h2 : Frame b c) : Frame a c :=
   ⟨h2.raw.trans h1.raw, h2.rawJSON.trans h1.rawJSON, h2.cur.trans h1.cur, h2.next.trans h1.next,
-   h2.socks.trans h1.socks⟩
+   h2.socks.trans h1.socks, h2.aevents.trans h1.aevents⟩
 
-theorem frame_ev (s : State) (es : List Ev) : Frame s (ev s es) := ⟨rfl, rfl, rfl, rfl, rfl⟩
+theorem frame_ev (s : State) (es : List Ev) : Frame s (ev s es) := ⟨rfl, rfl, rfl, rfl, rfl, rfl⟩
 
-theorem frame_alloc (s : State) : Frame s (alloc s) := ⟨rfl, rfl, rfl, rfl, rfl⟩
+theorem frame_alloc (s : State) : Frame s (alloc s) := ⟨rfl, rfl, rfl, rfl, rfl, rfl⟩
 
 theorem loadModAt_frame (i : Inst) (m : Mod) (s : State) (live : List Live) :
     Frame s (loadModAt i m s live).1 := by
   unfold loadModAt
   repeat' split
-  all_goals first | exact Frame.rfl' s | exact ⟨rfl, rfl, rfl, rfl, rfl⟩
+  all_goals first | exact Frame.rfl' s | exact ⟨rfl, rfl, rfl, rfl, rfl, rfl⟩
 
 theorem loadMod_frame (cid app idx : Nat) (m : Mod) (s : State) (live : List Live) :
     Frame s (loadMod cid app idx m s live).1 := by
@@ -91,7 +92,7 @@ theorem loadApps_frame (cid : Nat) : ∀ (as : List App) (s : State) (live : Lis
     | some r => exact h
 
 theorem openWriter_frame (k : Nat) (s : State) : Frame s (openWriter k s) := by
-  unfold openWriter; split <;> exact ⟨rfl, rfl, rfl, rfl, rfl⟩
+  unfold openWriter; split <;> exact ⟨rfl, rfl, rfl, rfl, rfl, rfl⟩
 
 theorem openLog_frame (cid idx : Nat) (m : Mod) (s : State) (live : List Live) (wk : List Nat) :
     Frame s (openLog cid idx m s live wk).1 := by
@@ -126,11 +127,11 @@ theorem closeLogs_frame : ∀ (ks : List Nat) (s : State), Frame s (closeLogs ks
   | k :: ks, s => by
     unfold closeLogs
     split
-    · refine Frame.trans ?_ (closeLogs_frame ks _); exact ⟨rfl, rfl, rfl, rfl, rfl⟩
-    · refine Frame.trans ?_ (closeLogs_frame ks _); exact ⟨rfl, rfl, rfl, rfl, rfl⟩
+    · refine Frame.trans ?_ (closeLogs_frame ks _); exact ⟨rfl, rfl, rfl, rfl, rfl, rfl⟩
+    · refine Frame.trans ?_ (closeLogs_frame ks _); exact ⟨rfl, rfl, rfl, rfl, rfl, rfl⟩
 
 theorem cleanupOne_frame (l : Live) (s : State) : Frame s (cleanupOne l s) := by
-  unfold cleanupOne; split <;> exact ⟨rfl, rfl, rfl, rfl, rfl⟩
+  unfold cleanupOne; split <;> exact ⟨rfl, rfl, rfl, rfl, rfl, rfl⟩
 
 theorem cleanupAll_frame : ∀ (ls : List Live) (s : State), Frame s (cleanupAll ls s)
   | [], s => Frame.rfl' s
@@ -230,7 +231,7 @@ theorem bindAll_frame4 (cid : Nat) (a : App) (blocked : List Nat) (l : List Nat)
 
 theorem closeApp_frame4 (cid n : Nat) (s : State) : Frame4 s (closeApp cid n s) := ⟨rfl, rfl, rfl, rfl⟩
 
-theorem ev_frame4 (s : State) (es : List Ev) : Frame4 s (ev s es) := ⟨rfl, rfl, rfl, rfl⟩
+theorem ev_frame4 (s : State) (es : List Ev) : Frame4 s (evA s es) := ⟨rfl, rfl, rfl, rfl⟩
 
 theorem startApp_frame4 (cid : Nat) (blocked : List Nat) (a : App) (s : State) :
     Frame4 s (startApp cid blocked a s).1 := by
@@ -240,8 +241,8 @@ theorem startApp_frame4 (cid : Nat) (blocked : List Nat) (a : App) (s : State) :
   · split
     · exact ev_frame4 _ _
     · have h := (ev_frame4 s [.start cid a.name]).trans
-        (bindAll_frame4 cid a blocked a.listen (ev s [.start cid a.name]))
-      generalize bindAll cid a blocked a.listen (ev s [.start cid a.name]) = r at h
+        (bindAll_frame4 cid a blocked a.listen (evA s [.start cid a.name]))
+      generalize bindAll cid a blocked a.listen (evA s [.start cid a.name]) = r at h
       obtain ⟨s', b⟩ := r
       cases b with
       | true => exact h.trans (ev_frame4 _ _)
@@ -362,9 +363,9 @@ theorem own_startApp {cid : Nat} {base : List Sock} {names : List Nat} {s : Stat
   · rename_i hh
     split
     · simp [hh]; exact h.socks_eq rfl
-    · have h0 : Own cid base names (ev s [.start cid a.name]) := h.socks_eq rfl
+    · have h0 : Own cid base names (evA s [.start cid a.name]) := h.socks_eq rfl
       have h1 := own_bind a blocked a.listen h0
-      generalize bindAll cid a blocked a.listen (ev s [.start cid a.name]) = r at h1
+      generalize bindAll cid a blocked a.listen (evA s [.start cid a.name]) = r at h1
       obtain ⟨s', b⟩ := r
       cases b with
       | true => simp; exact h1.socks_eq rfl
@@ -422,8 +423,8 @@ theorem startApp_ok {cid : Nat} {blocked : List Nat} {a : App} {s s' : State}
     rw [h2, appSocks_eq, h1]
   · split at h
     · simp at h
-    · obtain ⟨pre, suf, h1, h2, h3, _⟩ := bindAll_spec cid a blocked a.listen (ev s [.start cid a.name])
-      generalize bindAll cid a blocked a.listen (ev s [.start cid a.name]) = r at h h2 h3
+    · obtain ⟨pre, suf, h1, h2, h3, _⟩ := bindAll_spec cid a blocked a.listen (evA s [.start cid a.name])
+      generalize bindAll cid a blocked a.listen (evA s [.start cid a.name]) = r at h h2 h3
       obtain ⟨s1, b⟩ := r
       cases b with
       | false => simp at h
